@@ -17,7 +17,7 @@ INFO = {
                    'and parse_data.',
     'bounds': {'quick': {'signature_length': 'r in [32,72] (ECDSA issuer; the ideal model needs 32 bytes to bind the message; C01 covers [0,72] for the encoding), fixed for RSA / Ed25519 / HMAC / DigestSha256',
                          'public_key': '0..3 symbolic bytes; concrete lengths 32, 91, 150..260 step, 294',
-                         'key_name': '1..3 components, 1 symbolic byte each', 'clock': '[0,2^64)',
+                         'key_name': '1..3 components, 1 symbolic byte each; six shapes /<identity>/KEY/<id> whose identity itself contains KEY components', 'clock': '[0,2^64)',
                          'dates': '6 concrete instants incl. leap / epoch boundaries + every instant pair within three days of the year boundaries 2020/21, 2024/25, 2026/27 (thorough: 2018..2033, 1999, 2099); formatting is C code'}},
     'outside': ['date arithmetic as a solver variable (strftime / timedelta are C code)', 'real DER'],
     'assumptions': ['ideal signature model; datetime.now() replaced by a chosen concrete instant'],
@@ -54,6 +54,11 @@ def h_cert(eng, case):
     signer = env.make_signer(eng, kind, rmin=max(32, case.get('rmin', 0)))   # < 32 bytes never verifies in the ideal model
     ncomp = case['name_comps']
     key_name = [bwrap([8, 1] + blist(eng.bytes('kn%d' % i, 1))) for i in range(ncomp)]
+    if case.get('key_shape'):
+        # realistic key names /<identity>/KEY/<key-id>, also with identities that contain a KEY component themselves
+        key_name = [Component.from_str('KEY') if s == 'KEY' else bwrap([8, 1] + blist(eng.bytes('kn%d' % i, 1)))
+                    for i, s in enumerate(case['key_shape'])]
+        ncomp = len(key_name)
     pk = case['pubkey']
     if isinstance(pk, int) and pk <= 3:
         pub = eng.bytes('pub', pk)
@@ -197,6 +202,10 @@ def cases(tier, seed):
                 cs.append(('cert', dict(base, mode=mode, d0=d0, secs=secs, signer='ed25519'), {'weight': 2}))
         for d1 in range(len(DATES)):
             cs.append(('cert', dict(base, mode='new', d0=d0, d1=d1, signer='hmac'), {'weight': 2}))
+    for shape in (['s', 'KEY', 's'], ['s', 's', 'KEY', 's'], ['s', 'KEY', 's', 'KEY', 's'], ['KEY', 's', 'KEY', 's'],
+                  ['KEY', 'KEY', 'KEY', 's'], ['s', 'KEY', 'KEY', 's', 's']):
+        for mode in ('new', 'derive_text', 'derive_comp', 'self', 'sign_req'):
+            cs.append(('cert', dict(base, mode=mode, key_shape=shape, signer='hmac'), {'weight': 3}))
     # year boundaries: start and end instants on both sides
     bd = boundary_dates(tier)
     for i in range(0, len(bd) - 1):
